@@ -101,10 +101,14 @@ def decrypt_secret(b64: str, pwhash: bytes, iv: bytes) -> str:
 class Node:
     """Element: name, ordered attributes, child elements (no text is kept)."""
 
-    __slots__ = ("name", "attrs", "children")
+    __slots__ = ("name", "attrs", "children", "raw")
 
-    def __init__(self, name: str, attrs: list[list[str]] | None = None, children: list[Node] | None = None) -> None:
+    def __init__(self, name: str, attrs: list[list[str]] | None = None, children: list[Node] | None = None,
+                 raw: dict[str, tuple[str, str]] | None = None) -> None:
         self.name = name
+        # attribute name -> (value as a parser reports it, literal text to write between the quotes); the literal text is
+        # used only while the attribute still has that value (so a mutated value is never masked by it)
+        self.raw: dict[str, tuple[str, str]] = dict(raw or {})
         self.attrs: list[list[str]] = [list(a) for a in (attrs or [])]
         self.children: list[Node] = list(children or [])
 
@@ -122,7 +126,7 @@ class Node:
         self.attrs.append([key, value])
 
     def copy(self) -> Node:
-        return Node(self.name, [list(a) for a in self.attrs], [c.copy() for c in self.children])
+        return Node(self.name, [list(a) for a in self.attrs], [c.copy() for c in self.children], self.raw)
 
     def walk(self, path: tuple[int, ...] = ()):  # noqa: ANN201
         """Yield (path, node) in document order; path = child indices from the root."""
@@ -246,7 +250,8 @@ def serialize(root: Node, style: Style) -> bytes:
     def rec(node: Node, depth: int) -> None:
         pad = style.indent * depth
         q = style.quote
-        head = "<" + node.name + "".join(f" {k}={q}{_escape(v, style)}{q}" for k, v in node.attrs)
+        head = "<" + node.name + "".join(
+            f" {k}={q}{node.raw[k][1] if k in node.raw and node.raw[k][0] == v else _escape(v, style)}{q}" for k, v in node.attrs)
         if not node.children:
             if style.empty == "></>":
                 lines.append(f"{pad}{head}></{node.name}>")
@@ -291,6 +296,19 @@ def parse_bytes(data: bytes) -> Node:
 # --------------------------------------------------------------------------
 # plaintext project model
 # --------------------------------------------------------------------------
+# whitespace inside a whitespace-separated attribute value (Senders). Token -> (what the parser reports, text in the file).
+# XML attribute-value normalisation: a literal TAB / LF / CR (CR LF counts once) is reported as ONE space; a character
+# reference (&#9; &#10; &#13;) is reported as that character.
+WS_TOKENS = {
+    " ": (" ", " "), "ref-tab": ("\t", "&#9;"), "ref-lf": ("\n", "&#10;"), "ref-cr": ("\r", "&#xD;"),
+    "raw-tab": (" ", "\t"), "raw-lf": (" ", "\n"), "raw-cr": (" ", "\r"), "raw-crlf": (" ", "\r\n"),
+}
+
+
+def ws(tokens: tuple[str, ...] | list[str]) -> tuple[str, str]:
+    return "".join(WS_TOKENS[t][0] for t in tokens), "".join(WS_TOKENS[t][1] for t in tokens)
+
+
 def ia_str(raw: int) -> str:
     return f"{raw >> 12}.{(raw >> 8) & 0xF}.{raw & 0xFF}"
 
@@ -304,6 +322,8 @@ class PInterface:
     password: str | None = None
     authentication: str | None = None
     groups: list[tuple[int, list[int] | None]] = field(default_factory=list)  # (ga raw, [sender ia raw] | None = no Senders attribute)
+    # ga raw -> (leading, separator, trailing) whitespace token tuples for the Senders value; default: single spaces
+    sender_format: dict[int, tuple[tuple[str, ...], tuple[str, ...], tuple[str, ...]]] = field(default_factory=dict, compare=False)
 
 
 @dataclass
@@ -378,7 +398,14 @@ def build_tree(project: Project, rng, shuffle_attrs: bool = False, order: str = 
         for ga, senders in itf.groups:
             gnode = Node("Group", [["Address", str(ga)]])
             if senders is not None:  # None: no Senders attribute at all
-                gnode.set("Senders", " ".join(ia_str(s) for s in senders))
+                if ga in itf.sender_format:
+                    (lead_m, lead_r), (sep_m, sep_r), (trail_m, trail_r) = (ws(t) for t in itf.sender_format[ga])
+                    strs = [ia_str(s) for s in senders]
+                    model = lead_m + sep_m.join(strs) + trail_m
+                    gnode.set("Senders", model)
+                    gnode.raw["Senders"] = (model, lead_r + sep_r.join(strs) + trail_r)
+                else:
+                    gnode.set("Senders", " ".join(ia_str(s) for s in senders))
             node.children.append(gnode)
         sections["I"].append(node)
     if project.group_keys is not None:
@@ -442,7 +469,7 @@ def read_tree(root: Node, password: str) -> Project:
             itf = PInterface(ia(node.get("IndividualAddress")) or 0, node.get("Type") or "", ia(node.get("Host")),
                              int(uid) if uid else None, sec(node.get("Password")), sec(node.get("Authentication")))
             for g in node.find_all("Group"):
-                itf.groups.append((int(g.get("Address") or 0), [ia(s) or 0 for s in (g.get("Senders") or "").split(" ") if s]))
+                itf.groups.append((int(g.get("Address") or 0), [ia(s) or 0 for s in __import__("re").split("[ \\t\\n\\r]+", g.get("Senders") or "") if s]))
             project.interfaces.append(itf)
         elif node.name == "GroupAddresses":
             project.group_keys = project.group_keys or []
@@ -533,6 +560,10 @@ def random_project(rng, size: int = 6) -> Project:  # noqa: ANN001
             for ga in sorted(rng.sample(gas, rng.randint(1, min(len(gas), 4))), reverse=rng.random() < 0.5):
                 senders = rng.sample(sender_pool, rng.randint(0, min(4, len(sender_pool))))
                 itf.groups.append((ga, senders))
+                if rng.random() < 0.15:
+                    toks = list(WS_TOKENS)
+                    itf.sender_format[ga] = (tuple(rng.choices(toks, k=rng.choice((0, 0, 1)))), tuple(rng.choices(toks, k=rng.choice((1, 1, 2)))),
+                                             tuple(rng.choices(toks, k=rng.choice((0, 0, 1)))))
         project.interfaces.append(itf)
     if gas or rng.random() < 0.3:
         project.group_keys = [(ga, rng.randbytes(16)) for ga in gas]
@@ -684,6 +715,28 @@ def corner_projects() -> list[tuple[str, Project, str]]:
             p.devices = [dev(0, management_password=sec(2, "e"), authentication=sec(3, "f")),
                          dev(1, management_password=sec(1, "g"), authentication=sec(length, "h"))]
             out.append((f"pad-octet-tail-block{block}-len{length:02}", p, "BIGD"))
+    # whitespace between / around the senders of a group
+    seps = [(" ",), (" ", " "), (" ", " ", " "), ("ref-tab",), ("ref-lf",), ("ref-cr",), ("ref-cr", "ref-lf"), ("raw-tab",), ("raw-lf",),
+            ("raw-cr",), ("raw-crlf",), (" ", "ref-tab", " "), ("ref-tab", "ref-tab"), ("raw-lf", " ", " "), ("ref-lf", "raw-tab")]
+    edges = [((), ()), ((" ",), ()), ((), (" ",)), ((" ",), (" ",)), (("ref-tab",), ()), ((), ("ref-lf",)), (("raw-lf", " "), ("raw-crlf",)),
+             (("ref-cr",), ("ref-tab", " "))]
+    n = 0
+    for sep in seps:
+        for lead, trail in (edges if sep in ((" ",), ("ref-tab",), ("raw-lf",)) else edges[:1] + [edges[(n := n + 1) % len(edges)]]):
+            p = base()
+            p.interfaces = [itf(0, groups=[(1, [0x1105, 0x1106, 0x1107]), (2, [0x1105, 0x1106]), (3, [0x1105])]),
+                            itf(1, groups=[(2, [0x1106, 0x1105])])]
+            for i in p.interfaces:
+                i.sender_format = {ga: (lead, sep, trail) for ga, _ in i.groups}
+            p.interfaces[1].sender_format = {2: ((), sep, ())}
+            p.group_keys = [(1, key()), (2, key()), (3, key())]
+            out.append((f"senders-ws-sep[{'+'.join(sep)}]-lead[{'+'.join(lead)}]-trail[{'+'.join(trail)}]".replace(" ", "sp"), p, "BIGD"))
+    for only in ((" ",), (" ", " "), ("ref-tab",), ("raw-lf",), ("ref-cr", "ref-lf", " ")):  # nothing but whitespace: no senders
+        p = base()
+        p.interfaces = [itf(0, groups=[(1, []), (2, [0x1105])])]
+        p.interfaces[0].sender_format = {1: (only, (" ",), ())}
+        p.group_keys = [(1, key()), (2, key())]
+        out.append((f"senders-ws-only[{'+'.join(only)}]".replace(" ", "sp"), p, "BIGD"))
     # senders that are also devices / devices only / interface senders only (sequence table sources)
     p = base()
     p.interfaces = [itf(0, groups=[(1, [0x1100, 0x1105])])]
